@@ -63,6 +63,10 @@ class Case:
 
     def __exit__(self, *a):
         self.close()
+        # a calculator is a cycle of few objects holding large arrays (3 GB for the diopside example): the generational collector does not get to it for a
+        # long time, and forty cases in one run grew to 35 GB -- collect when a case is closed
+        import gc
+        gc.collect()
 
 
 def quiet(fn, *a, **k):
